@@ -1224,7 +1224,9 @@ func Hydro(horizon int, g *GlobalVarsMain, local *InputSharedVars, hPath *HFileP
 
 			g.WUMAX[horizonIndex] = ValAsFloat(wa[31:33], hyparName, wa)
 			if horizon == 1 {
-				calcWRed(g.LIM[horizonIndex]*100, local.FK[horizonIndex]*100, g)
+				// same stone correction as applied to W, WMIN and WNOR of the layers
+				stoneFree := 1 - g.STEIN[horizonIndex]
+				calcWRed(g.LIM[horizonIndex]*100*stoneFree, local.FK[horizonIndex]*100*stoneFree, g)
 			}
 			break
 		}
